@@ -93,6 +93,13 @@ func (batch *Batch) close() (err error) {
 		err = nil
 	}
 
+	if batch.err == nil {
+		// The connection's read lock is given back below: a Read or
+		// ReadMessage call that comes after Close (e.g. from another
+		// goroutine) must not touch the connection's read buffer anymore.
+		batch.err = io.EOF
+	}
+
 	if conn != nil {
 		conn.rdeadline.unsetConnReadDeadline()
 		conn.mutex.Lock()
